@@ -1,7 +1,7 @@
 (* Dispatch.v — single entry point of the executable model: one s-expression case
    in, one s-expression observation out.  Extracted to OCaml (ocaml/driver.ml) and
    evaluated by vm_compute in the per-run cases.v cross-check. *)
-From SE Require Import Base.Prelude Slots.SlotMapMachine Slots.SlotMachine Lang.LangMachine Parse.ParseMachine Group.GroupMachine Sem.EgMachine Explain.CheckMachine EGraph.ModelMachine EGraph.Model9 Extract.ExtractMachine EGraph.ModelAMachine EGraph.RewriteMachine Run.RunMachine Sem.FpMachine EGraph.MatchMachine EGraph.InvMachine Extract.CertMachine EGraph.SoundMachine.
+From SE Require Import Base.Prelude Slots.SlotMapMachine Slots.SlotMachine Lang.LangMachine Parse.ParseMachine Group.GroupMachine Sem.EgMachine Explain.CheckMachine EGraph.ModelMachine EGraph.Model9 Extract.ExtractMachine EGraph.ModelAMachine EGraph.RewriteMachine Run.RunMachine Sem.FpMachine EGraph.MatchMachine EGraph.InvMachine Extract.CertMachine EGraph.SoundMachine EGraph.MatchCertMachine.
 
 Definition dispatch (e : sexp) : sexp :=
   match e with
@@ -26,6 +26,7 @@ Definition dispatch (e : sexp) : sexp :=
   | Lst (Sym "egc" :: args) => run_egc args
   | Lst (Sym "egtc" :: args) => run_egtc args
   | Lst (Sym "egsound" :: args) => run_egsound args
+  | Lst (Sym "eg5c" :: args) => run_eg5c args
   | Lst (Sym "eg5" :: args) => run_eg5 true args
   | Lst (Sym "eg5legacy" :: args) => run_eg5 false args
   | Lst (Sym "eg4" :: args) => run_eg4 args
